@@ -3,7 +3,7 @@ Design: TLC on spec/Tissue (implementation-shaped: contact stores list positions
 history of divisions / removals in the bound.  Implementation: real solver::run on scripted histories (cells made ready or
 too small at chosen list positions and iterations, adjacent epithelial cells so that couplings exist, 1 and 8 threads,
 1-3 face types), every phase boundary logged through hook H4 and validated by TLC against Tissue (TissueTrace)."""
-import json, os, random, shutil
+import json, os, random, re, shutil
 import vlib, tissue_common as tc
 from vlib import Check, ModelError
 
@@ -80,6 +80,16 @@ def run(tier, seed, replay=None):
         nev += tc.report(chk, "C08", validated)
         for s, ev, rc, depth, tags, res in validated[:2]:
             chk.sample({"scenario": s["name"], "script": s["script"], "events": len(ev), "final_ids": [c["id"] for c in ev[-2]["cells"]] if len(ev) > 2 and "cells" in ev[-2] else None})
+    # ---- the identifier discipline for populations of ANY size: spec/Tissue/IdAlloc, proved with the TLA+ proof system (IndInv is
+    # inductive, a division hands out ids nobody ever carried); the TLC run above checks that Tissue refines it (RefinesIdAlloc)
+    if not replay:
+        pdir = os.path.join(work, "proof"); os.makedirs(pdir, exist_ok=True)
+        shutil.copy(os.path.join(tc.SPEC, "IdAlloc.tla"), pdir)
+        rc, out = vlib.run(["tlapm", "--toolbox", "0", "0", "IdAlloc.tla"], timeout=900, cwd=pdir) if False else vlib.run(["sh", "-c", "cd %s && timeout 800 tlapm IdAlloc.tla" % pdir], timeout=900)
+        proved = re.search(r"All (\d+) obligations proved", out)
+        chk.cov["tlaps"] = {"module": "Tissue/IdAlloc", "obligations_proved": int(proved.group(1)) if proved else 0, "rc": rc}
+        if not proved:
+            raise ModelError("tlapm did not prove spec/Tissue/IdAlloc: rc=%d\n%s" % (rc, out[-1500:]))
     # ---- the phase that writes face-type indices from the couplings: spec/Tissue/Polarisation (decision of
     # special_polarization_update for both coupling models; TLC: index in range, only apical / lateral written, a face coupled corner
     # by corner to one triangle of one neighbour is lateral, a face with a free corner is not lateralised) replayed into the real function
